@@ -2,6 +2,7 @@
 
 import os
 import posixpath
+import zlib
 
 from ..ref import refparse
 
@@ -86,6 +87,9 @@ class Layout:
         self.serial += 1
         place = place or rng.choice(PLACES)
         name = "f%d.conf" % self.serial
+        if self.serial % 4 == 3:
+            # a '$' in a file name is written '$$' in the reference
+            name = "p$%d.conf" % self.serial
         return {"same": "b/" + name, "sub": "b/sub/" + name,
                 "parent": name, "subsub": "b/sub/deep/" + name}[place], place
 
@@ -106,14 +110,31 @@ class Layout:
             for l in lines:
                 if isinstance(l, tuple):
                     ref = posixpath.relpath(l[1], posixpath.dirname(path))
+                    ref = ref.replace("$", "$$")
                     style = self.ref_styles.get(l[1], "rel")
+                    pre = ""
                     if style == "dot":
                         ref = "./" + ref
                     elif style == "abs":
-                        ref = ROOT_MARK + "/" + l[1]
+                        ref = ROOT_MARK + "/" + l[1].replace("$", "$$")
                     elif style == "url":
-                        ref = ROOT_URL_MARK + "/" + l[1]
-                    l = l[2] + "%include " + ref
+                        ref = ROOT_URL_MARK + "/" + l[1].replace("$", "$$")
+                    elif style == "defabs":
+                        # the whole reference comes from a definition that
+                        # holds an absolute path
+                        dn = "zcvref%d" % zlib.crc32(
+                            ("%s|%d|%s" % (path, len(r), l[1])).encode())
+                        pre = "%s%%define %s %s/%s\n" % (
+                            l[2], dn, ROOT_MARK, l[1].replace("$", "$$"))
+                        ref = "$" + dn
+                    elif style == "defup":
+                        # ... or its first segments, followed by as many
+                        # '..': the reference is the text after expansion
+                        dn = "zcvdir%d" % zlib.crc32(
+                            ("%s|%d|%s" % (path, len(r), l[1])).encode())
+                        pre = "%s%%define %s zcv-a/zcv-b\n" % (l[2], dn)
+                        ref = "${%s}/../../%s" % (dn, ref)
+                    l = pre + l[2] + "%include " + ref
                 r.append(l)
             out[path] = "".join(x + "\n" for x in r)
             if path in self.unterminated and out[path].endswith("\n"):
@@ -145,7 +166,8 @@ def _cut_into(rng, layout, lines, my_path, budget, ranges_fn):
     frag_path, place = layout.new_path(rng)
     if layout.styled:
         layout.ref_styles[frag_path] = rng.choice(
-            ["rel", "rel", "rel", "dot", "url"] +
+            ["rel", "rel", "rel", "dot", "url", "defup"] +
+            ([] if layout.styled == "noabs" else ["defabs"]) +
             # (a bare absolute path cannot be written when it contains
             # characters that mean something in a URL reference)
             ([] if layout.styled == "noabs" else ["abs"]))
